@@ -171,6 +171,17 @@ func (d *c12Dag) seqRead(n datamodel.Node, buf int, firstFail int64, what string
 		// and the load error again (an error is not a state of the reader); from
 		// inside the prefix it delivers the rest of the prefix
 		if d.sized && d.c.Kind == "file" && err != nil && err != io.EOF && store.IsInjected(err) {
+			// reading on without a Seek: the block is still unavailable, so
+			// nothing more may be delivered (least of all bytes from behind the
+			// hole) and the stream may not end cleanly
+			for k := 0; k < 3; k++ {
+				more := make([]byte, buf)
+				nn, err2 := rs.Read(more)
+				if nn > 0 || err2 == nil || err2 == io.EOF || !store.IsInjected(err2) {
+					viol("read-on-after-load-error", fmt.Sprintf("%s %s buf=%d: first pass %d bytes then %q; Read #%d after that (no Seek) returns (%d, %v) %s, want (0, the load error)", d.c, what, buf, len(got), err, k+1, nn, err2, clip(more[:nn], 12)))
+					break
+				}
+			}
 			for _, from := range []int64{0, int64(len(got)) / 2} {
 				if _, serr := rs.Seek(from, io.SeekStart); serr != nil {
 					viol("seek-after-load-error", fmt.Sprintf("%s %s buf=%d: Seek(%d) after a load error: %v", d.c, what, buf, from, serr))
@@ -254,6 +265,26 @@ func (d *c12Dag) static(miss map[string]bool, kind store.ErrKind, viol func(sig,
 			}
 			if r != nil {
 				r.Transitions.Add(1)
+			}
+		}
+		// the same through a link system that reifies every node it loads
+		// (NodeReifier = unixfsnode.Reify): interior file nodes reach the reader
+		// already interpreted
+		if len(miss) <= 2 && d.c.Kind == "file" {
+			lsr := lsReifying(d.s)
+			if rn2, err := loadRoot(lsr, d.root); err == nil {
+				if _, ok := rn2.(datamodel.LargeBytesNode); ok {
+					for _, buf := range []int{1, 3} {
+						if p, pv := core.Guard(func() {
+							d.seqRead(rn2, buf, first, what+" reifying-linksystem", func(sig, detail string) { viol(sig+" reifying-linksystem", detail) })
+						}); p {
+							viol("panic read-with-missing reifying-linksystem", fmt.Sprintf("%s %s: %v", d.c, what, pv))
+						}
+						if r != nil {
+							r.Transitions.Add(1)
+						}
+					}
+				}
 			}
 		}
 		return
